@@ -18,6 +18,14 @@ def sh(cmd, cwd=None, env=None, timeout=1800):
     return p.returncode, p.stdout
 
 
+def eval_worktree():
+    ev = "/tmp/seed/_eval_%d" % os.getpid()
+    sh("git -C /repo worktree remove --force %s" % ev)
+    rc, out = sh("git -C /repo worktree add --detach %s HEAD" % ev)
+    assert rc == 0, out
+    return ev
+
+
 def main():
     sid, wt, prop = sys.argv[1], sys.argv[2], sys.argv[3]
     checks = sys.argv[4:] or [prop]
@@ -42,20 +50,23 @@ def main():
     meta["confirmed"] = ok
     print("confirm:", json.dumps({k: meta[k] for k in ("demo_without_patch_rc", "demo_with_patch_rc", "tests_with_patch", "confirmed")}))
     # --- 2. run the checks against /repo with the patch applied
-    rc, out = sh("git -C /repo status --porcelain")
-    assert out.strip() == "", "/repo is not clean"
-    rc, out = sh("git -C /repo apply %s" % patch)
-    assert rc == 0, "patch does not apply to /repo: " + out
+    # (the checks read the code under $LSF_REPO: a scratch worktree of /repo's HEAD carries the change, so that
+    # /repo itself — which other runs may be reading at the same time — is never touched; equivalent to
+    # `git -C /repo apply` + `git -C /repo checkout -- .`)
+    ev = eval_worktree()
+    rc, out = sh("git -C %s apply %s" % (ev, patch))
+    assert rc == 0, "patch does not apply to /repo's HEAD: " + out
+    cenv = dict(os.environ, LSF_REPO=ev)
     try:
         for c in checks:
             t0 = time.time()
-            rc, out = sh("/venv/bin/python harness/check.py %s --tier quick" % c, cwd=VERIF, timeout=3600)
+            rc, out = sh("/venv/bin/python harness/check.py %s --tier quick" % c, cwd=VERIF, env=cenv, timeout=3600)
             viol = [l for l in out.splitlines() if l.startswith("VIOLATION")]
             meta["ran"].append({"check": c, "exit": rc, "violations": len(viol), "first": viol[:2],
                                 "wall_s": round(time.time() - t0, 1)})
             print("check %s: exit=%d violations=%d %s" % (c, rc, len(viol), viol[:1]))
     finally:
-        sh("git -C /repo checkout -- .")
+        sh("git -C /repo worktree remove --force %s" % ev)
     meta["detected_by"] = [r["check"] for r in meta["ran"] if r["exit"] == 1]
     # --- 3. keep
     dst = os.path.join(VERIF, "seeded", sid)
